@@ -405,6 +405,7 @@ Definition prelude_of (q : request) : prelude :=
       match step_ms (q_step q) with
       | None => PResp O4xx
       | Some ms =>
+        if limit_of 100 (q_limit q) <? 0 then PResp O4xx else     (* fix 82a27af: a negative limit is refused *)
         if ms <=? 0 then PResp O4xx else
         match q_shape q with
         | None => PResp O5xx
@@ -418,6 +419,7 @@ Definition prelude_of (q : request) : prelude :=
     match step_ms (q_step q) with
     | None => PResp O4xx
     | Some ms =>
+      if limit_of 0 (q_limit q) <? 0 then PResp O4xx else
       if ms <=? 0 then PResp O4xx else
       if num_of (q_end q) <? num_of (q_start q) then PResp O4xx else
       match q_shape q with
